@@ -5,7 +5,7 @@
 (* marked for elimination.  The finished behaviour is printed for the replayer.                                     *)
 EXTENDS Quota, Json
 CONSTANTS Params,       \* set of scope records, see P below
-          MaxN          \* largest population in any scope (fixes the common denominator)
+          MaxN          \* largest population of the exhaustive families (fixes their common denominator and the fitness tables)
 
 VARIABLES species, par, pc, res
 vars == <<species, par, pc, res>>
@@ -28,29 +28,39 @@ Total == Sum([k \in DOMAIN species |-> Len(species[k].fit)])
 N == Total
 Opts == [dropoff |-> par.dropoff, sig |-> par.sig, st |-> res.st, bs |-> res.bs]
 
-Init == \E p \in Params :
-          /\ par = p /\ species = <<>> /\ pc = "setup" /\ res = [x |-> 0]
+\* a scope with fixed size shapes (large-steal family) picks one shape for the whole behaviour
+Init == \E p \in Params : \E sh \in p.shapes :
+          /\ par = [p EXCEPT !.shape = sh] /\ species = <<>> /\ pc = "setup" /\ res = [x |-> 0]
+Lbase == IF par.lbase = 0 THEN LcmUpTo(MaxN) ELSE par.lbase
 
 AddSpecies(fs, c) ==
-    /\ pc = "setup" /\ Len(species) < par.maxsp
+    /\ pc = "setup" /\ Len(species) < par.maxsp /\ par.shape = <<>>
     /\ species' = Append(species, [id |-> 10 + Len(species) + 1, age |-> Cls[c].age, aoli |-> Cls[c].aoli, mx |-> Cls[c].mx, fit |-> fs])
+    /\ UNCHANGED <<par, pc, res>>
+\* large-steal family: the k-th species has the k-th size of the shape and one raw fitness for all its organisms; the
+\* first (big) species takes its age class from par.big, the others from par.classes
+AddUniform(f, c) ==
+    /\ pc = "setup" /\ par.shape # <<>> /\ Len(species) < Len(par.shape)
+    /\ c \in (IF species = <<>> THEN par.big ELSE par.classes)
+    /\ species' = Append(species, [id |-> 10 + Len(species) + 1, age |-> Cls[c].age, aoli |-> Cls[c].aoli, mx |-> Cls[c].mx,
+                                    fit |-> [i \in 1..par.shape[Len(species) + 1] |-> f]])
     /\ UNCHANGED <<par, pc, res>>
 
 \* population-level stagnation state before the epoch: "fresh" no record yet; "stale" one epoch before delta coding
 \* fires; "almost" two epochs before
 Start(st, bs, mode) ==
-    /\ pc = "setup" /\ Total \in par.ns
+    /\ pc = "setup" /\ Total \in par.ns /\ Len(species) = (IF par.shape = <<>> THEN Len(species) ELSE Len(par.shape))
     /\ \E k \in DOMAIN species : species[k].fit[1] > 0          \* quantifier of C09: at least one positive fitness
     /\ bs <= Total \div 2
     /\ LET o == [dropoff |-> par.dropoff, sig |-> par.sig, st |-> st, bs |-> bs]
-           ad == [k \in DOMAIN species |-> Adjust(species[k], o, MaxN)]      \* Species.adjustFitness, every species
+           ad == [k \in DOMAIN species |-> Adjust(species[k], o, Lbase)]      \* Species.adjustFitness, every species
            adjs == [k \in DOMAIN species |-> ad[k].adj]
        IN res' = [st |-> st, bs |-> bs, mode0 |-> mode,
                   hf0 |-> IF mode = "fresh" THEN 0 ELSE 100,
                   ehlc0 |-> IF mode = "fresh" THEN 0 ELSE IF mode = "stale" THEN par.dropoff + 4 ELSE par.dropoff + 3,
                   adj |-> ad, ens |-> ENum(adjs), T |-> TDen(adjs),
                   exact |-> FloatExact([k \in DOMAIN species |-> Len(species[k].fit)], [k \in DOMAIN species |-> ad[k].penalised],
-                                       par.sig.d, adjs, LDen(o, MaxN), ENum(adjs), TDen(adjs))]
+                                       par.sig.d, adjs, LDen(o, Lbase), ENum(adjs), TDen(adjs))]
     /\ pc' = "adjusted"
     /\ UNCHANGED <<species, par>>
 
@@ -75,7 +85,7 @@ CaseOf(r) ==
     [n |-> N, dropoff |-> par.dropoff, sig |-> par.sig, st |-> r.st, bs |-> r.bs, hf0 |-> r.hf0, ehlc0 |-> r.ehlc0,
      species |-> [k \in DOMAIN species |-> [id |-> species[k].id, age |-> species[k].age, aoli |-> species[k].aoli,
                                              mx |-> species[k].mx, fit |-> species[k].fit]],
-     lden |-> LDen(Opts, MaxN),
+     lden |-> LDen(Opts, Lbase),
      adj |-> [k \in DOMAIN species |-> [a |-> r.adj[k].adj, orig |-> r.adj[k].orig, aoli |-> r.adj[k].aoli, mx |-> r.adj[k].mx,
                                          parents |-> r.adj[k].parents, pen |-> r.adj[k].penalised, young |-> r.adj[k].young]],
      T |-> r.T, e |-> r.ens,
@@ -111,6 +121,7 @@ DoRedistribute(cs) ==
 
 Next ==
     \/ \E n \in 1..(par.maxn - Total) : \E fs \in NonIncTab[n][par.maxfit], c \in par.classes : AddSpecies(fs, c)
+    \/ \E f \in par.fits, c \in par.big \cup par.classes : AddUniform(f, c)
     \/ \E st \in par.sts, bs \in par.bss, mode \in par.modes : Start(st, bs, mode)
     \/ \E lost \in [DOMAIN species -> {0, 1}] : DoCount(lost)
     \/ \E cs \in SUBSET (4..Len(species)) : DoRedistribute(cs)
@@ -120,14 +131,25 @@ Spec == Init /\ [][Next]_vars
 Fr(n, d) == [n |-> n, d |-> d]
 P(ns, maxsp, maxfit, classes, sig, sts, bss, modes) ==
     [ns |-> ns, maxn |-> IF ns = {} THEN 0 ELSE CHOOSE m \in ns : \A x \in ns : x <= m, maxsp |-> maxsp, maxfit |-> maxfit,
-     classes |-> classes, dropoff |-> 3, sig |-> sig, sts |-> sts, bss |-> bss, modes |-> modes]
+     classes |-> classes, dropoff |-> 3, sig |-> sig, sts |-> sts, bss |-> bss, modes |-> modes,
+     shapes |-> {<<>>}, shape |-> <<>>, fits |-> {}, big |-> {}, lbase |-> 0]
+\* large-steal family: BabiesStolen >= 10, so that the hand-out blocks BabiesStolen/5, /5, /10 are 2, 2, 1 and the pool of
+\* stolen babies can be SMALLER than a block (few robbable species: age > 5 and quota > 2).  Populations of 20 / 22 in 3-4
+\* species of fixed sizes: one big species (class from big) and small ones; one raw fitness per species (from fits).
+\* lbase: a common multiple of every size that occurs in the shapes.
+SumSeq(sh) == Sum(sh)
+PL(shapes, lbase, fits, big, classes, sig, bss) ==
+    [ns |-> { SumSeq(sh) : sh \in shapes }, maxn |-> 0, maxsp |-> 4, maxfit |-> 1,
+     classes |-> classes, dropoff |-> 3, sig |-> sig, sts |-> {Fr(1, 2)}, bss |-> bss, modes |-> {"fresh"},
+     shapes |-> shapes, shape |-> <<>>, fits |-> fits, big |-> big, lbase |-> lbase]
 Half == Fr(1, 2)
 \* quick: (a) apportionment over all age classes that change the multiplier, (b) redistribution (steal / delta coding)
 ParamsQuick ==
     { P(1..4, 3, 2, {"y", "os", "o"}, Fr(2, 1), {Half}, {0}, {"fresh"}),
       P(1..3, 2, 3, {"oz", "y10", "o11", "oi"}, Fr(3, 2), {Fr(1, 4), Fr(1, 1)}, {0}, {"fresh"}),
       P({5, 6}, 2, 1, {"y6", "o", "os"}, Fr(2, 1), {Half}, {1, 2, 3}, {"fresh"}),
-      P(2..5, 3, 1, {"y", "o"}, Fr(2, 1), {Half}, {2}, {"stale", "almost"}) }
+      P(2..5, 3, 1, {"y", "o"}, Fr(2, 1), {Half}, {2}, {"stale", "almost"}),
+      PL({<<12, 4, 2, 2>>, <<14, 3, 3>>, <<14, 4, 2, 2>>}, 84, {1, 3}, {"y"}, {"y", "o", "os"}, Fr(1, 1), {10, 11}) }
 ParamsThorough ==
     { P(1..6, 3, 2, {"y", "os", "o"}, Fr(2, 1), {Half}, {0}, {"fresh"}),
       P({6, 7, 8}, 2, 3, {"y", "os"}, Fr(3, 2), {Fr(1, 4)}, {0}, {"fresh"}),
@@ -135,7 +157,10 @@ ParamsThorough ==
       P({7}, 4, 1, {"o", "os"}, Fr(2, 1), {Half}, {2, 3}, {"fresh"}),
       P({6}, 3, 2, {"y6", "os"}, Fr(2, 1), {Half}, {1, 2, 3}, {"fresh"}),
       P({7}, 3, 2, {"os", "o"}, Fr(2, 1), {Fr(1, 4)}, {0}, {"fresh"}),
-      P(2..6, 3, 2, {"y", "o"}, Fr(2, 1), {Half}, {2}, {"stale", "almost"}) }
+      P(2..6, 3, 2, {"y", "o"}, Fr(2, 1), {Half}, {2}, {"stale", "almost"}),
+      PL({<<12, 4, 2, 2>>, <<12, 4, 4>>, <<14, 3, 3>>, <<14, 4, 2, 2>>, <<12, 4, 3, 3>>, <<14, 4, 4>>}, 84, {1, 2, 3}, {"y", "o"},
+         {"y", "o", "os", "y6"}, Fr(1, 1), {10, 11}),
+      PL({<<12, 4, 2, 2>>, <<14, 4, 2, 2>>}, 84, {1, 3}, {"y"}, {"o", "os", "oi"}, Fr(2, 1), {10, 11}) }
 \* simulation: larger populations, all age classes, all modes (MaxN = 10)
 ParamsSim ==
     { P({n}, 5, 3, {"y", "ys", "o", "os", "oz", "y10", "o11", "oi", "y6"}, Fr(2, 1), {Fr(1, 4), Half}, 0..5, {"fresh", "stale", "almost"}) : n \in {8, 9, 10} }
